@@ -8,10 +8,12 @@
    command, operand, term, checkPipeline) for the template fragment
 
         template ::= ( text | "{{" ["- "] tokens [" -"] "}}" )*
-        tokens   ::= spaces, "|", ".", ".name" with name = ASCII letters, digits, "_"
+        tokens   ::= spaces, "|", ".", ".name", word   with name / word = ASCII letters, digits, "_"
+                 | "{{" ["- "] "/*" comment "*/" [" -"] "}}"
 
-   i.e. actions that are pipelines of commands whose operands are the dot or field chains (.a, .a.b.c). Everything else
-   Go's template language has (comments, variables, literals, function calls, parentheses, if/range/with/define/template,
+   i.e. comments, and actions that are pipelines of commands whose operands are the dot, field chains (.a, .a.b.c) and
+   function names (the predefined functions of text/template; any other word is Parse's "function not defined"). Everything
+   else Go's template language has (variables, literals, parentheses, if/range/with/define/template and the other keywords,
    non-ASCII identifiers) is answered TUnmodelled: the model says nothing about such a template. TErr = Parse returns an
    error. Executable definitions only. *)
 From Coq Require Import List NArith String Ascii Bool.
@@ -21,7 +23,7 @@ Open Scope string_scope.
 
 (* the parse tree: text, and actions = pipelines of commands whose operands are fields (.name.c1.c2: Ident = name :: chain)
    or the dot *)
-Inductive oper := OF (name : string) (chain : list string) | OD.
+Inductive oper := OF (name : string) (chain : list string) | OD | OI (fn : string).   (* OI: a function name (IdentifierNode), possibly followed by a field chain (ChainNode) *)
 Inductive tnode := TText (s : string) | TAct (cmds : list (list oper)).
 Inductive tpl_res := TOk (nodes : list tnode) | TErr | TUnmodelled.
 
@@ -39,7 +41,14 @@ Fixpoint mem_c (c : ascii) (s : string) : bool :=
   match s with String d r => Ascii.eqb c d || mem_c c r | EmptyString => false end.
 
 (* ---------- inside an action ---------- *)
-Inductive atok := ASp | AField (name : string) | ADot | APipe.
+Inductive atok := ASp | AField (name : string) | ADot | APipe | AIdent (name : string) | AUndef.   (* AUndef: a word that is no predefined function *)
+(* the keywords of lex.go (key) and the boolean constants: control structures and literals are not transcribed *)
+Definition tpl_keywords : list string :=
+  ["block"; "break"; "continue"; "define"; "else"; "end"; "if"; "range"; "nil"; "template"; "with"; "true"; "false"].
+(* builtins() of text/template/funcs.go: template.New(..).Parse knows these functions only *)
+Definition tpl_builtins : list string :=
+  ["and"; "call"; "html"; "index"; "slice"; "js"; "len"; "not"; "or"; "print"; "printf"; "println"; "urlquery"; "eq"; "ge"; "gt"; "le"; "lt"; "ne"].
+Definition mem_s (x : string) (l : list string) : bool := existsb (String.eqb x) l.
 Inductive lres := LTokens (ts : list atok) (trim : bool) (rest : string) | LErr | LUn.
 
 Fixpoint take_alnum (s : string) : string * string :=
@@ -87,6 +96,14 @@ Fixpoint lex_action (fuel : nat) (s : string) (acc : list atok) : lres :=
           end
         end
       else if mem_c c "!#%&*,/;<>?@[\]^{}~" then LErr               (* itemChar: unexpected <c> in command / in operand *)
+      else if (is_lower c || is_upper c || Ascii.eqb c "_") then      (* lexIdentifier (a digit starts a number) *)
+        let '(word, r2) := take_alnum s in
+        match at_term r2 with
+        | Some true =>
+          if mem_s word tpl_keywords then LUn
+          else lex_action f r2 ((if mem_s word tpl_builtins then AIdent word else AUndef) :: acc)
+        | _ => LUn
+        end
       else LUn
     end
   end.
@@ -94,7 +111,7 @@ Fixpoint lex_action (fuel : nat) (s : string) (acc : list atok) : lres :=
 (* pipeline / command / operand / term over the tokens of one action, as a state machine:
    MStart = pipeline() expects a command or the delimiter; MIn = inside a command behind a space;
    MAfterF / MAfterD = directly behind a field / the dot *)
-Inductive pmode := MStart | MIn | MAfterF | MAfterD.
+Inductive pmode := MStart | MIn | MAfterF | MAfterD | MAfterI.
 Fixpoint chain_last (cur : list oper) (n : string) : list oper :=
   match cur with
   | [] => []
@@ -110,6 +127,12 @@ Fixpoint parse_action (ts : list atok) (m : pmode) (cmds : list (list oper)) (cu
     | MStart, AField n => parse_action r MAfterF cmds [OF n []]
     | MStart, ADot => parse_action r MAfterD cmds [OD]
     | MStart, APipe => None                                          (* unexpected "|" in command *)
+    | _, AUndef => None                                              (* function "x" not defined *)
+    | MStart, AIdent n => parse_action r MAfterI cmds [OI n]
+    | MIn, AIdent n => parse_action r MAfterI cmds (cur ++ [OI n])%list
+    | _, AIdent _ => None                                            (* cannot follow an operand without a space (lexically impossible) *)
+    | MAfterI, AField _ => parse_action r MAfterI cmds cur           (* print.a : a ChainNode, not reached by visitNodes *)
+    | MAfterI, ADot => None
     | MAfterF, AField n => parse_action r MAfterF cmds (chain_last cur n)   (* .a.b : one FieldNode, Ident = [a; b] *)
     | MAfterF, ADot => None                                          (* unexpected <.> in operand *)
     | MAfterD, AField _ => None                                      (* unexpected . after term "." *)
@@ -128,6 +151,13 @@ Definition check_pipeline (cmds : list (list oper)) : bool :=
   end.
 
 (* ---------- the whole template ---------- *)
+(* the text behind the first occurrence of needle *)
+Fixpoint find_after (needle s : string) (fuel : nat) : option string :=
+  match fuel with
+  | O => None
+  | S f => if prefixb needle s then Some (drop_s (String.length needle) s)
+           else match s with String _ r => find_after needle r f | EmptyString => None end
+  end.
 Definition push_text (t : string) (acc : list tnode) : list tnode :=
   if String.eqb t "" then acc else TText t :: acc.
 
@@ -145,7 +175,18 @@ Fixpoint tpl_lex (fuel : nat) (s : string) (text : string) (acc : list tnode) : 
         let txt := rev_s text "" in
         let acc1 := push_text (if lt then rtrim txt else txt) acc in
         let body := if lt then drop_s 2 after else after in
-        if prefixb "/*" body then TUnmodelled else
+        if prefixb "/*" body then
+          (* lexComment: up to the first "*/", which the right delimiter (with or without trim marker) must follow; no node *)
+          match find_after "*/" (drop_s 2 body) (String.length body) with
+          | None => TErr                                             (* unclosed comment *)
+          | Some after_c =>
+            if prefixb "}}" after_c then tpl_lex f (drop_s 2 after_c) "" acc1
+            else match after_c with
+                 | String sp r2 => if is_space sp && prefixb "-}}" r2 then tpl_lex f (ltrim (drop_s 3 r2)) "" acc1 else TErr
+                 | EmptyString => TErr                               (* comment ends before closing delimiter *)
+                 end
+          end
+        else
         match lex_action (S (String.length body)) body [] with
         | LUn => TUnmodelled
         | LErr => TErr
@@ -167,7 +208,7 @@ Definition tpl_parse (t : string) : tpl_res := tpl_lex (S (String.length t)) t "
 (* what visitNodes reaches, in order: the text nodes and the fields that are operands of a command (Ident[0] only) *)
 Inductive piece := PText (s : string) | PField (name : string).
 Definition act_fields (cmds : list (list oper)) : list string :=
-  flat_map (fun c => flat_map (fun o => match o with OF n _ => [n] | OD => [] end) c) cmds.
+  flat_map (fun c => flat_map (fun o => match o with OF n _ => [n] | _ => [] end) c) cmds.
 Definition pieces (ns : list tnode) : list piece :=
   flat_map (fun n => match n with TText s => [PText s] | TAct cmds => map PField (act_fields cmds) end) ns.
 
